@@ -91,6 +91,7 @@ def run(check, prog):
     fortran_double_precision(check, prog)
     fortran_single_precision_quotients(check, prog)
     series_exit(check, prog)
+    work_arrays_defined(check, prog)
     cluster_order_cap(check, prog)
     # "at every detector point and polarization": the lens theories place the
     # Mie series relative to the polarisation direction (rule shared with C05)
@@ -1288,9 +1289,26 @@ def series_exit(check, prog):
         check.error('subroutine MIE1 not found in the mie_f sources')
         return
     exits = []
-    for line, text in u.stmts:
+    stmts = list(u.stmts)
+    for i, (line, text) in enumerate(stmts):
         t = ' '.join(text.lower().split())
-        m = re.match(r'^if\s*\((.*)\)\s*go\s*to\s*(\d+)\s*$', t)
+        # `if (c) goto 310`, `if (c) exit`, and the block form of either
+        m = re.match(r'^if\s*\((.*)\)\s*(go\s*to\s*\d+|exit)\s*$', t)
+        if m is None:
+            mb = re.match(r'^if\s*\((.*)\)\s*then$', t)
+            if mb:
+                depth = 1
+                for _, nxt in stmts[i + 1:]:
+                    n2 = ' '.join(nxt.lower().split())
+                    if re.match(r'^if\s*\(.*\)\s*then$', n2):
+                        depth += 1
+                    elif re.match(r'^end\s*if$', n2):
+                        depth -= 1
+                        if depth == 0:
+                            break
+                    elif depth == 1 and re.match(r'^(go\s*to\s*\d+|exit)$', n2):
+                        m = mb
+                        break
         if m and 'qeps' in m.group(1):
             exits.append((line, m.group(1), text.strip()))
     check.need('tolerance-dependent exits of the order loop in MIE1', len(exits), 1,
@@ -1314,6 +1332,104 @@ def series_exit(check, prog):
                       'sum and the loop stops, while b_17 has modulus 0.92 -- a '
                       'one-sphere cluster is 21 %% off the Lorenz-Mie solver (C_ext '
                       '764.5 for 952.3) with the default tolerance' % ' / '.join(bad))
+
+
+_H11_FIXTURE = """      subroutine demo(nmax,out)
+      implicit real*8(a-h,o-z)
+      real*8 w(0:40),out(*)
+      do n=%d,40
+         w(n)=dsqrt(dble(n))
+      enddo
+      do n=1,nmax
+         do k=-n+1,n-1
+            out(n)=out(n)+w(n-k-1)*w(n+k)
+         enddo
+      enddo
+      return
+      end
+"""
+
+
+def work_arrays_defined(check, prog):
+    """H11: the compiled cluster routines read no element of a local work array that
+    no statement writes.  A local array lives on the stack: an element that is
+    never stored holds whatever an earlier call left there, so a product
+    `fnr(0) * 0` that "cannot matter" is NaN whenever that word happens to be a
+    NaN or Inf bit pattern -- the amplitude matrix, the cross sections and the
+    hologram of a perfectly ordinary cluster then come out NaN, depending on what
+    ran before.  Rule (hpstatic/fdefuse.py): for every rank-1 local array of every
+    program unit of the mie_f sources, the smallest index of each unguarded read
+    (affine in the DO variables, minimised over the DO nest) is not below the
+    smallest index any store writes."""
+    import os
+    import tempfile
+    from hpstatic.fortran import scan_file
+    from hpstatic import fdefuse
+    from .c10 import meson_inputs, MIE_DIR
+    files = meson_inputs(prog.root, MIE_DIR)
+    # the rule must see the defect it is about (and stay silent on its repair)
+    for start, want in ((1, 1), (0, 0)):
+        with tempfile.NamedTemporaryFile('w', suffix='.for', delete=False) as f:
+            f.write(_H11_FIXTURE % start)
+        try:
+            us = scan_file(f.name)
+            got = fdefuse.analyse(us[0])[0]
+        finally:
+            os.unlink(f.name)
+        if len(got) != want:
+            check.error('H11 fixture: %d findings for an initialisation loop starting '
+                        'at %d, expected %d' % (len(got), start, want))
+            return
+    nunits = narr = 0
+    seen = set()
+    for rel in files:
+        path = os.path.normpath(os.path.join(prog.root, rel))
+        if path in seen or not os.path.exists(path):
+            continue
+        seen.add(path)
+        # PARAMETERs of INCLUDEd files (scfodim.for: npd, nod, notd)
+        inc = {}
+        with open(path, errors='replace') as f:
+            for m in __import__('re').finditer(r"(?im)^\s+include\s+'([^']+)'", f.read()):
+                ip = os.path.join(os.path.dirname(path), m.group(1))
+                if os.path.exists(ip):
+                    for line in open(ip, errors='replace'):
+                        mm = __import__('re').match(r'(?i)^\s+parameter\s*\((.*)\)', line)
+                        if mm:
+                            for ent in mm.group(1).replace(' ', '').lower().split(','):
+                                k, _, v = ent.partition('=')
+                                if v.isdigit():
+                                    inc[k] = int(v)
+        relpath = os.path.relpath(path, prog.root)
+        for u in scan_file(path, relpath):
+            nunits += 1
+            findings, analysed, skipped = fdefuse.analyse(u, inc)
+            narr += len(analysed)
+            by = {}
+            for x in findings:
+                by.setdefault(x['array'], []).append(x)
+            for a in analysed:
+                construct = '%s::%s local array %s' % (os.path.basename(relpath),
+                                                       u.name, a.upper())
+                bad = by.get(a, [])
+                if bad:
+                    x = bad[0]
+                    check.bad('H11-work-array-defined', construct,
+                              '%s(%d) is read (%s(%s) at line %d, %d such reads) but the '
+                              'smallest index any statement stores is %d: the element '
+                              'is whatever the stack held -- with a NaN / Inf bit '
+                              'pattern there, `%s(%d) * 0` is NaN and every amplitude '
+                              'matrix, cross section and hologram of the cluster solver '
+                              'is NaN, depending on what was called before' % (
+                                  a.upper(), x['reached'], a, x['index'], x['line'],
+                                  len(bad), x['lowest_written'], a, x['reached']),
+                              '%s:%d' % (relpath, x['line']))
+                else:
+                    check.ok('H11-work-array-defined', construct,
+                             'no unguarded read reaches below the lowest stored index',
+                             '%s:%d' % (relpath, u.line))
+    check.floor('H11 program units scanned', nunits, 30)
+    check.floor('H11 local work arrays analysed', narr, 4)
 
 
 def option_slots(check, prog):
